@@ -9,6 +9,7 @@ import (
 
 	"github.com/NVIDIA/KAI-scheduler/pkg/scheduler/api"
 	"github.com/NVIDIA/KAI-scheduler/pkg/scheduler/api/common_info"
+	"github.com/NVIDIA/KAI-scheduler/pkg/scheduler/api/pod_status"
 	"github.com/NVIDIA/KAI-scheduler/pkg/scheduler/api/podgroup_info"
 	"github.com/NVIDIA/KAI-scheduler/pkg/scheduler/api/queue_info"
 	"github.com/NVIDIA/KAI-scheduler/pkg/scheduler/framework"
@@ -205,23 +206,31 @@ func (mr *minruntimePlugin) cacheReclaimProtection(pendingJob *podgroup_info.Pod
 }
 
 func validVictimForMinAvailable(victimInfo *api.VictimInfo) bool {
-	numVictimTasksPerSubGroup := map[string]int32{}
+	victimTasks := map[common_info.PodID]bool{}
+	subGroupsWithVictims := map[string]bool{}
 	for _, task := range victimInfo.Tasks {
 		subGroupName := podgroup_info.DefaultSubGroup
 		if task.SubGroupName != "" {
 			subGroupName = task.SubGroupName
 		}
-		numVictimTasksPerSubGroup[subGroupName]++
+		victimTasks[task.UID] = true
+		subGroupsWithVictims[subGroupName] = true
 	}
 
-	numCurrentlyRunningSubGroup := map[string]int32{}
-	for subGroupName := range numVictimTasksPerSubGroup {
-		numCurrentlyRunningSubGroup[subGroupName] = int32(victimInfo.Job.GetSubGroups()[subGroupName].GetNumActiveUsedTasks())
-	}
-
-	for subGroupName, numVictims := range numVictimTasksPerSubGroup {
-		subGroupCurrentlyRunning := numCurrentlyRunningSubGroup[subGroupName]
-		if victimInfo.Job.GetSubGroups()[subGroupName].GetMinAvailable() > subGroupCurrentlyRunning-numVictims {
+	for subGroupName := range subGroupsWithVictims {
+		subGroup := victimInfo.Job.GetSubGroups()[subGroupName]
+		// Count the pods that stay with the job once the victims are gone. A pod that is already
+		// releasing (terminating) for another reason does not keep the job at its minimum.
+		numRemaining := int32(0)
+		for _, task := range subGroup.GetPodInfos() {
+			if victimTasks[task.UID] {
+				continue
+			}
+			if pod_status.IsActiveAllocatedStatus(task.Status) {
+				numRemaining++
+			}
+		}
+		if subGroup.GetMinAvailable() > numRemaining {
 			return false
 		}
 	}
